@@ -1,7 +1,7 @@
 (* Extraction of the executable models (ExtrOcamlBasic only; Z/positive/Q stay Coq datatypes). *)
 From Coq Require Import List Arith ZArith QArith Qcanon.
 From Coq Require Import extraction.ExtrOcamlBasic.
-Require Import PGM.Base.Alg PGM.Base.Sums PGM.Base.Qnn PGM.Model.Domain PGM.Model.Dataset PGM.Model.Factor PGM.Model.XQ PGM.Model.BP PGM.Model.JTree PGM.Model.Query PGM.Model.Loss PGM.Model.Synth.
+Require Import PGM.Base.Alg PGM.Base.Sums PGM.Base.Qnn PGM.Model.Domain PGM.Model.Dataset PGM.Model.Factor PGM.Model.XQ PGM.Model.BP PGM.Model.JTree PGM.Model.LBP PGM.Model.Query PGM.Model.Loss PGM.Model.Synth.
 Extraction Language OCaml.
 Extraction "model.ml"
   QcSR QnnSF Qc_of Qnn_of Qc_num Qc_den qv
@@ -12,6 +12,7 @@ Extraction "model.ml"
   Factor.cv_bin Factor.cv_combine Factor.cv_get Factor.tabulate Factor.tbl_of
   xadd xsub xmul xdiv xmax xzero xninf
   BP.marginal_table BP.jt_okb BP.structb BP.vschedb BP.completeb BP.rootokb BP.brute BP.root_tree
+  LBP.lbp_tables
   JTree.jt_cliques JTree.greedy_order JTree.coverb JTree.attrs_coverb JTree.antichainb JTree.eliminate
   Query.ve Query.project_ve Query.project_cached Query.table_of Query.krondot Query.qfactor Query.pots
   Loss.total_loss Loss.group_of Loss.lip_group_of Loss.ivw Loss.est_of Loss.var_of Loss.loss_m Loss.grad_m Loss.tmatvec
